@@ -796,6 +796,9 @@ def generate():
     body = "open FimVerif.Cypher\n\n"
     for k in ("classes", "rels", "props"):
         body += "def %s : List String := %s\n\n" % (k, lean_list([lean_str(x) for x in voc[k]]))
+    # the same vocabularies as code-point text: what the identifier holes of the templates are filled with by the library itself
+    for k in ("classes", "rels", "props"):
+        body += "def %sT : List Text := %s\n\n" % (k, lean_list(["t!" + lean_str(x) for x in voc[k]]))
     names = []
     for op in ops:
         nm = def_name(op)
